@@ -222,32 +222,5 @@ contract(IP + '_propagate_callable_skips',
              'C05.skips.walks_on': 'result == True',
          })
 
-# ------------------------------------------------------------------------------------------------
-# index cross references: closure / destroy / length indices name existing parameters or fields
-contract('giscanner.ast.Callable.get_parameter_index',
-         params={'self': 'Callable', 'name': 'str?'}, returns='int', ghost={'J': 'int'}, props=('C05', 'C01'),
-         pure_keys=['self', 'name'],
-         raises={'ValueError': 'implies(0 <= J and J < len(self.parameters), self.parameters[J].argname != name)'},
-         loops={1: {'invariant': ['implies(0 <= J and J < I1, self.parameters[J].argname != name)'], 'modifies': []}},
-         ensures={
-             'C05.index.param_in_range': '0 <= result and result < len(self.parameters)',
-             'C05.index.param_names_it': 'self.parameters[result].argname == name',
-             'C05.index.param_first': 'implies(0 <= J and J < result, self.parameters[J].argname != name)',
-         })
-contract('giscanner.ast.Compound.get_field_index',
-         params={'self': 'Compound', 'name': 'str?'}, returns='int', ghost={'J': 'int'}, props=('C05', 'C01'),
-         pure_keys=['self', 'name'],
-         raises={'ValueError': 'implies(0 <= J and J < len(self.fields), self.fields[J].name != name)'},
-         loops={1: {'invariant': ['implies(0 <= J and J < I1, self.fields[J].name != name)'], 'modifies': []}},
-         ensures={
-             'C05.index.field_in_range': '0 <= result and result < len(self.fields)',
-             'C05.index.field_names_it': 'self.fields[result].name == name',
-             'C05.index.field_first': 'implies(0 <= J and J < result, self.fields[J].name != name)',
-         })
-contract('giscanner.ast.Compound.get_field',
-         params={'self': 'Compound', 'name': 'str?'}, returns='Field', ghost={'J': 'int'}, props=('C05', 'C01'),
-         raises={'ValueError': 'implies(0 <= J and J < len(self.fields), self.fields[J].name != name)'},
-         loops={1: {'invariant': ['implies(0 <= J and J < I1, self.fields[J].name != name)'], 'modifies': []}},
-         ensures={'C05.index.get_field_names_it': 'result.name == name'})
-inline('giscanner.ast.Callable.parameters', 'giscanner.ast.Callable._get_parameters', 'giscanner.ast.Callable._get_retval',
-       'giscanner.ast.Callable._get_instance_parameter', 'giscanner.ast.Parameter.name')
+# index cross references (get_parameter_index / get_field_index / get_field): see c00_index.py
+from . import c00_index  # noqa
